@@ -114,12 +114,29 @@ theorem massLe_swapRemove_le {arr : List S} {i : Nat} {s : S} (hi : arr[i]? = so
 
 /-! ### a deep seek moves forward -/
 
-theorem doc_le_T {x : S} (hwf : WF x) : x.doc ≤ T := by
+/-- what COMPLETION of the mirrored loops needs of a scorer — no bound hypothesis: ascending
+postings below `TERMINATED`, full blocks ending below `TERMINATED` -/
+structure WFC (x : S) : Prop where
+  asc : Asc x.rest
+  lt : ∀ p, p ∈ x.rest → p.1 < T
+  blocksLt : ∀ b, b ∈ x.blocks → b.1 < T
+
+theorem WFC.of_rest_sublist {s s' : S} (h : WFC s) (hr : s'.rest.Sublist s.rest) (hb : s'.blocks = s.blocks) : WFC s' :=
+  ⟨Pairwise.sublist hr h.asc, fun p hp => h.lt p (hr.subset hp), by rw [hb]; exact h.blocksLt⟩
+
+theorem WFC.seek {s : S} (h : WFC s) (t : Nat) : WFC (s.seek t) :=
+  h.of_rest_sublist (by rw [seek_rest s h.asc]; exact seekP_sublist _ _) (seek_blocks s t)
+theorem WFC.seekBlock {s : S} (h : WFC s) (t : Nat) : WFC (s.seekBlock t) :=
+  h.of_rest_sublist (by rw [seekBlock_rest]; exact Sublist.refl _) (seekBlock_blocks s t)
+theorem WFC.advance {s : S} (h : WFC s) : WFC s.advance :=
+  h.of_rest_sublist (by rw [advance_rest]; exact tail_sublist _) (by unfold TS.advance; split <;> rfl)
+
+theorem doc_le_T {x : S} (hwf : WFC x) : x.doc ≤ T := by
   by_cases hx : x.rest = []
   · rw [doc_eq_T_of_nil hx]; exact Nat.le_refl _
   · exact Nat.le_of_lt (doc_lt_T hwf.lt hx)
 
-theorem seek_doc_ge (x : S) (hwf : WF x) (t : Nat) : x.doc ≤ (x.seek t).doc := by
+theorem seek_doc_ge (x : S) (hwf : WFC x) (t : Nat) : x.doc ≤ (x.seek t).doc := by
   by_cases hr : (x.seek t).rest = []
   · rw [doc_eq_T_of_nil hr]; exact doc_le_T hwf
   · obtain ⟨p, hp, hpd⟩ := doc_mem hr
@@ -128,7 +145,7 @@ theorem seek_doc_ge (x : S) (hwf : WF x) (t : Nat) : x.doc ≤ (x.seek t).doc :=
     omega
 
 /-- the current document after `seek(t)` is `≥ t` (or the scorer is exhausted) -/
-theorem seek_doc_ge_target (x : S) (hwf : WF x) (t : Nat) (ht : t ≤ T) : t ≤ (x.seek t).doc := by
+theorem seek_doc_ge_target (x : S) (hwf : WFC x) (t : Nat) (ht : t ≤ T) : t ≤ (x.seek t).doc := by
   by_cases hr : (x.seek t).rest = []
   · rw [doc_eq_T_of_nil hr]; exact ht
   · obtain ⟨p, hp, hpd⟩ := doc_mem hr
@@ -137,7 +154,7 @@ theorem seek_doc_ge_target (x : S) (hwf : WF x) (t : Nat) (ht : t ≤ T) : t ≤
     omega
 
 /-- a deep seek past the current document drops at least one posting -/
-theorem seek_len_lt (x : S) (hwf : WF x) (t : Nat) (h : x.doc < t) (hT : x.doc < T) :
+theorem seek_len_lt (x : S) (hwf : WFC x) (t : Nat) (h : x.doc < t) (hT : x.doc < T) :
     (x.seek t).rest.length < x.rest.length := by
   rw [seek_rest x hwf.asc t]
   unfold TS.doc at h hT
@@ -151,7 +168,7 @@ theorem seek_len_lt (x : S) (hwf : WF x) (t : Nat) (h : x.doc < t) (hT : x.doc <
     have := (dropWhile_sublist (fun q : Nat × Nat => decide (q.1 < t)) (l := ps)).length_le
     simp only [length_cons]; omega
 
-theorem seek_len_le (x : S) (hwf : WF x) (t : Nat) : (x.seek t).rest.length ≤ x.rest.length := by
+theorem seek_len_le (x : S) (hwf : WFC x) (t : Nat) : (x.seek t).rest.length ≤ x.rest.length := by
   rw [seek_rest x hwf.asc t]; exact (seekP_sublist _ _).length_le
 
 end TantivyModel.BlockWand
